@@ -244,3 +244,28 @@ def misc(rep, repo, mod):
     rep.ob('C02.init', 'mdim = ceil(log2(m))', ok)
     if not ok:
         rep.violate('C02.init', mod, li, md[0] if md else 'self.mdim', 'mdim must be ceil(log2(m)): 1, 2, 3 planes for 2-, 4-, 8-valued logic', node=md[0] if md else li)
+
+
+def thorough(rep, repo):
+    """Thorough tier: the quick rules plus checker self-validation on the C02 slice of the mutation corpus , a second evaluator for engine A and an alias sweep."""
+    from kvstatic import thorough as thorough_mod
+    from kvstatic.mvlogic import Logic
+    lg = Logic(repo)
+    tabs = {}
+    for pre, nplanes in (('bp8v', 3), ('bp4v', 2)):
+        for op in ('buf', 'not', 'and', 'or', 'xor'):
+            for k in ((1,) if op in ('buf', 'not') else (1, 2, 3, 4)):
+                try:
+                    tabs[(f'{pre}_{op}', k)] = lg.bp_table(f'{pre}_{op}', k, nplanes)[0]
+                except Exception:  # noqa: BLE001 - already reported by the quick rules
+                    pass
+    for op in ('not', 'and', 'or', 'xor'):
+        for k in ((1,) if op == 'not' else (1, 2, 3, 4)):
+            try:
+                tabs[(f'_mv_{op}', k)] = lg.mv_table(f'_mv_{op}', k)[0]
+            except Exception:  # noqa: BLE001
+                pass
+    if not rep.violations:
+        thorough_mod.second_evaluator(rep, lg, tabs, seed=rep.seed)
+        thorough_mod.alias_sweep(rep, lg)
+    thorough_mod.selftest_slice(rep, repo, 'C02')
